@@ -17,6 +17,13 @@
 //	del <s> <e> <workers>                          DeleteRangeTask, then store content
 //	gc <pure|shim|phase> <sp> <limit> <rpt> <workers> lock-resolution phase of GC, then the store-level audit
 //	vis <get|bget|iter> <sp> <ageSec> <ts> <key>   snapshot read with the txn safe point cache set to sp
+//	runc <s> <e> <rpt> <workers> <before|inh|between> <i>   chk-complete: the CALLER's context is cancelled before the
+//	                                               run / inside the i-th handler call, which returns nil (a further
+//	                                               sub-range is queued behind the busy workers, or all are in handlers)
+//	                                               / while every worker waits for its next pull; RunOnRange returned
+//	                                               nil => the handler ran over the WHOLE range, else FAIL success-with-gap
+//	gcc <sp> <j>                                   the same at GC level: resolve-locks phase (128 regions per sub-range,
+//	                                               one worker), context cancelled right after the j-th ScanLock; nil => audit
 //
 // gc modes: pure = StoreProbe.GCResolveLockPhase on the unmodified mock; shim = Runner + tikv.ResolveLocksForRange
 // with the given scan limit, over an RPC wrapper that (a) applies StartKey/EndKey/Limit of ScanLock to the mock's
@@ -86,11 +93,14 @@ type env struct {
 	splits    []*splitSpec
 	armPD     bool
 	pdLoads   int
+	loadHook  func(idx int) // called at the start of the idx-th armed PD load
+	scanHook  func(idx int) // called after the idx-th successful armed ScanLock
 	armScan   bool
 	shim      bool
 	scanOK    int
 	scanCalls int
 	scans     []scanRec
+	pure      bool            // the last gc ran on the unmodified mock
 	acked     map[uint64]bool // transactions named in a batched ResolveLock request that the store acknowledged
 	recDel    bool
 	delCalls  int
@@ -109,8 +119,10 @@ type pdWrap struct {
 
 func (p *pdWrap) ScanRegions(ctx context.Context, key, endKey []byte, limit int, opts ...opt.GetRegionOption) ([]*router.Region, error) {
 	p.e.mu.Lock()
+	var hook func(int)
+	idx := -1
 	if p.e.armPD {
-		idx := p.e.pdLoads
+		idx = p.e.pdLoads
 		p.e.pdLoads++
 		for _, s := range p.e.splits {
 			if !s.done && s.idx <= idx {
@@ -118,8 +130,12 @@ func (p *pdWrap) ScanRegions(ctx context.Context, key, endKey []byte, limit int,
 				p.e.doSplit(s.key)
 			}
 		}
+		hook = p.e.loadHook
 	}
 	p.e.mu.Unlock()
+	if hook != nil {
+		hook(idx) // may block (cancellation scenarios): called without the lock
+	}
 	return p.Client.ScanRegions(ctx, key, endKey, limit, opts...)
 }
 
@@ -175,6 +191,11 @@ func (c *rpcWrap) SendRequest(ctx context.Context, addr string, req *tikvrpc.Req
 					s.done = true
 					e.doSplit(s.key)
 				}
+			}
+			if h := e.scanHook; h != nil {
+				e.mu.Unlock()
+				h(idx) // may block (cancellation scenario)
+				return resp, nil
 			}
 		}
 		e.mu.Unlock()
@@ -500,6 +521,193 @@ func (e *env) opRun(s, en []byte, rpt, workers, fail int) string {
 	return "ok " + rangesStr(got)
 }
 
+// ---- cancellation of the CALLER's context while the range task runs
+
+// cancelRun is one RunOnRange under a cancellation scenario; it returns the result class and the handled sub-ranges.
+//   before  : the context is cancelled before RunOnRange is called
+//   inh i   : the i-th handler call (and every later one) is held until the producer is known to have queued a
+//             further sub-range behind the busy workers (or until every sub-range is in a handler), then the
+//             caller's context is cancelled and the handlers return nil without looking at it
+//   between i: the producer is kept slower than the workers (each region load waits until everything pushed so far
+//             was handled); the context is cancelled during load i+1, i.e. while every worker waits for its next pull
+func (e *env) cancelRun(s, en []byte, rpt, workers int, mode string, i, total int) (string, []kv.KeyRange) {
+	ctx, cancel := context.WithCancel(context.Background())
+	defer cancel()
+	var mu sync.Mutex
+	var got []kv.KeyRange
+	var started, blocked, done int32
+	gate := make(chan struct{})
+	var once sync.Once
+	timedOut := int32(0)
+	waitFor := func(cond func() bool) {
+		t0 := time.Now()
+		for !cond() {
+			if time.Since(t0) > 10*time.Second { // never reached on a run that makes progress
+				atomic.StoreInt32(&timedOut, 1)
+				return
+			}
+			time.Sleep(20 * time.Microsecond)
+		}
+	}
+	loads := func() int { e.mu.Lock(); defer e.mu.Unlock(); return e.pdLoads }
+	handler := func(_ context.Context, r kv.KeyRange) (rangetask.TaskStat, error) {
+		n := int(atomic.AddInt32(&started, 1)) - 1
+		mu.Lock()
+		got = append(got, kv.KeyRange{StartKey: append([]byte{}, r.StartKey...), EndKey: append([]byte{}, r.EndKey...)})
+		mu.Unlock()
+		defer atomic.AddInt32(&done, 1)
+		if mode == "inh" && n >= i {
+			atomic.AddInt32(&blocked, 1)
+			if n == i {
+				inflight := total - i
+				if inflight > workers {
+					inflight = workers
+				}
+				waitFor(func() bool {
+					if int(atomic.LoadInt32(&blocked)) < inflight {
+						return false
+					}
+					// every remaining sub-range is in a handler, or a sub-range is queued behind the busy workers
+					return total-i <= workers || loads() >= i+workers+2
+				})
+				once.Do(func() { cancel(); close(gate) })
+			}
+			<-gate
+		}
+		return rangetask.TaskStat{CompletedRegions: 1}, nil
+	}
+	e.arm(true, false, false, false)
+	if mode == "between" {
+		e.mu.Lock()
+		e.loadHook = func(idx int) {
+			if idx > i+1 {
+				return // after the cancellation nothing is held back any more
+			}
+			waitFor(func() bool { return int(atomic.LoadInt32(&done)) >= idx })
+			if idx == i+1 {
+				cancel()
+			}
+		}
+		e.mu.Unlock()
+	}
+	if mode == "before" {
+		cancel()
+	}
+	runner := rangetask.NewRangeTaskRunner("verif-c14-cancel", e.store, workers, handler)
+	runner.SetRegionsPerTask(rpt)
+	err := runner.RunOnRange(ctx, s, en)
+	e.mu.Lock()
+	e.loadHook = nil
+	e.mu.Unlock()
+	e.arm(false, false, false, false)
+	sortRanges(got)
+	switch {
+	case atomic.LoadInt32(&timedOut) != 0:
+		return "harness-timeout", got
+	case err != nil:
+		return "err", got
+	case partitionOK(s, en, got) == "":
+		return "nil-complete", got
+	}
+	return "nil-gap", got
+}
+
+// opRunC: `runc <s> <e> <rpt> <workers> <before|inh|between> <i>` — property op chk-complete:
+// RunOnRange returned nil  =>  the handler ran over sub-ranges whose union is the whole requested range.
+func (e *env) opRunC(s, en []byte, rpt, workers int, mode string, i int) string {
+	// a run without cancellation tells how many sub-ranges there are
+	cls, all := e.cancelRun(s, en, rpt, workers, "none", 0, 0)
+	if cls != "nil-complete" {
+		return "FAIL uncancelled-run " + cls
+	}
+	total := len(all)
+	reps := 1
+	switch mode {
+	case "inh":
+		if i >= total || !(total-i <= workers || total >= i+workers+2) {
+			return "skip"
+		}
+	case "before", "between":
+		reps = 24 // the outcome depends on which ready case the producer's select takes
+	default:
+		return "bad-op"
+	}
+	seen := map[string]bool{}
+	for r := 0; r < reps; r++ {
+		cls, got := e.cancelRun(s, en, rpt, workers, mode, i, total)
+		count("runc:" + mode + ":" + cls)
+		if cls == "harness-timeout" {
+			return "FAIL harness-timeout"
+		}
+		if cls == "nil-gap" {
+			return "FAIL success-with-gap " + rangesStr(got)
+		}
+		seen[cls] = true
+	}
+	var cs []string
+	for c := range seen {
+		cs = append(cs, c)
+	}
+	sort.Strings(cs)
+	return "ok " + strings.Join(cs, ",")
+}
+
+// opGCC: `gcc <sp> <j>` — the resolve-locks phase of GC (regionsPerTask 128, one worker) with the caller's context
+// cancelled right after the j-th successful ScanLock, once the producer has queued the next sub-range and is blocked
+// on the one after it. chk-complete at GC level: GC returned nil  =>  audit (no lock <= safe point left, …).
+func (e *env) opGCC(sp uint64, j int) string {
+	rpt := 128
+	regions := len(e.cluster.GetAllRegions())
+	total := (regions + rpt - 1) / rpt
+	cur := j / rpt // below the scan limit every region costs one ScanLock
+	if j >= regions || cur+3 > total {
+		return "skip"
+	}
+	ctx, cancel := context.WithCancel(context.Background())
+	defer cancel()
+	timedOut := int32(0)
+	e.arm(true, true, true, false)
+	e.mu.Lock()
+	e.scanHook = func(idx int) {
+		if idx != j {
+			return
+		}
+		t0 := time.Now()
+		for {
+			e.mu.Lock()
+			l := e.pdLoads
+			e.mu.Unlock()
+			if l >= cur+3 {
+				break
+			}
+			if time.Since(t0) > 10*time.Second {
+				atomic.StoreInt32(&timedOut, 1)
+				break
+			}
+			time.Sleep(20 * time.Microsecond)
+		}
+		cancel()
+	}
+	e.mu.Unlock()
+	err := tikv.StoreProbe{KVStore: e.store}.GCResolveLockPhase(ctx, sp, 1)
+	e.mu.Lock()
+	e.scanHook = nil
+	e.mu.Unlock()
+	e.arm(false, false, false, false)
+	if atomic.LoadInt32(&timedOut) != 0 {
+		return "FAIL harness-timeout"
+	}
+	if err != nil {
+		count("gcc:err")
+		return "ok err"
+	}
+	count("gcc:nil")
+	if a := e.audit(sp); a != "" {
+		return a
+	}
+	return "ok nil-complete"
+}
+
 func (e *env) liveKeys() [][]byte {
 	var out [][]byte
 	for _, p := range e.mvcc.Scan(nil, nil, 1<<30, 1<<62, kvrpcpb.IsolationLevel_RC, nil) {
@@ -567,6 +775,7 @@ func (e *env) opGC(mode string, sp uint64, limit, rpt, workers int) string {
 	probe := tikv.StoreProbe{KVStore: e.store}
 	switch mode {
 	case "pure":
+		e.pure = true
 		e.arm(false, false, false, false)
 		e.mu.Lock()
 		e.acked = map[uint64]bool{}
@@ -669,7 +878,7 @@ func (e *env) audit(sp uint64) string {
 	}
 	if len(locks) > 0 {
 		var ls []string
-		ackedOnly := true
+		ackedOnly := e.pure // the classification is about the unmodified mock only
 		e.mu.Lock()
 		for _, l := range locks {
 			ls = append(ls, vx.Hex(l.Key)+":"+strconv.FormatUint(l.LockVersion, 10))
@@ -940,6 +1149,15 @@ func exec(line string) string {
 				fail = n(w[5])
 			}
 			return e.opRun(s, en, n(w[3]), n(w[4]), fail)
+		case w[0] == "runc" && len(w) == 7:
+			s, ok1 := vx.UnHex(w[1])
+			en, ok2 := vx.UnHex(w[2])
+			if !ok1 || !ok2 {
+				return "bad-op"
+			}
+			return e.opRunC(s, en, n(w[3]), n(w[4]), w[5], n(w[6]))
+		case w[0] == "gcc" && len(w) == 3:
+			return e.opGCC(u(w[1]), n(w[2]))
 		case w[0] == "del" && len(w) == 4:
 			s, ok1 := vx.UnHex(w[1])
 			en, ok2 := vx.UnHex(w[2])
@@ -1062,6 +1280,65 @@ func (g *gen) caseRun() {
 			break // scheduled splits are consumed by the first run
 		}
 	}
+}
+
+// caseCancel: the caller's context is cancelled inside the i-th handler call (unnoticed by the handler) — for every i
+// of a run with several sub-ranges. On its own cases `racy`: before the run / between two pulls; there the outcome
+// depends on the producer's select (known finding), so they are kept apart from the strict ops.
+func (g *gen) caseCancel(racy bool) {
+	if racy {
+		g.begin("runc-racy")
+	} else {
+		g.begin("runc")
+	}
+	lay := g.layout(14)
+	s, e := g.bound(lay, 50), g.bound(lay, 50)
+	if len(e) != 0 && bytes.Compare(s, e) > 0 {
+		s, e = e, s
+	}
+	rpt := 1 + g.r.Intn(2)
+	workers := 1 + g.r.Intn(4)
+	n := len(lay)/rpt + 2
+	if racy {
+		g.do(fmt.Sprintf("runc %s %s %d %d before 0", vx.Hex(s), vx.Hex(e), rpt, workers))
+		g.do(fmt.Sprintf("runc %s %s %d %d between %d", vx.Hex(s), vx.Hex(e), rpt, workers, g.r.Intn(n)))
+		return
+	}
+	for i := 0; i < n; i++ {
+		g.do(fmt.Sprintf("runc %s %s %d %d inh %d", vx.Hex(s), vx.Hex(e), rpt, workers, i))
+	}
+}
+
+// caseGCCancel: GC's resolve-locks phase over more than 2*128 regions, context cancelled after a chosen ScanLock
+func (g *gen) caseGCCancel() {
+	g.begin("gcc")
+	nreg := 260 + g.r.Intn(150)
+	var ks [][]byte
+	for i := 0; i < nreg; i++ {
+		ks = append(ks, []byte(fmt.Sprintf("k%03d", i)))
+	}
+	g.do("layout " + keysStr(ks))
+	sp := uint64(20 + g.r.Intn(20))
+	ts := uint64(5)
+	for t := 0; t < 2+g.r.Intn(3); t++ {
+		var keys [][]byte
+		seen := map[int]bool{}
+		for len(keys) < 2+g.r.Intn(3) {
+			r := g.r.Intn(nreg)
+			if !seen[r] {
+				seen[r] = true
+				keys = append(keys, []byte(fmt.Sprintf("k%03dx%d", r, t)))
+			}
+		}
+		sort.Slice(keys, func(a, b int) bool { return bytes.Compare(keys[a], keys[b]) < 0 })
+		ts += uint64(1 + g.r.Intn(3))
+		g.do(fmt.Sprintf("txn %d pending 0 %s %s %s", ts, vx.Hex(keys[g.r.Intn(len(keys))]), keysStr(keys), keysStr(keys)))
+	}
+	j := 127 // the last region of the first sub-range: the handler returns without looking at the context again
+	if g.r.Chance(35) {
+		j = g.r.Intn(128)
+	}
+	g.do(fmt.Sprintf("gcc %d %d", sp, j))
 }
 
 func (g *gen) caseDel() {
@@ -1235,11 +1512,22 @@ func main() {
 	count = run.Count
 	g := &gen{r: vx.NewRand(run.Seed), run: run}
 	nRun, nDel, nGC, nVis, nPhase := 300, 120, 250, 40, 20
+	nCancel, nRacy, nGCC := 40, 3, 6
 	if run.Thorough() {
 		nRun, nDel, nGC, nVis, nPhase = 9000, 3000, 8000, 600, 300
+		nCancel, nRacy, nGCC = 600, 12, 60
 	}
 	for i := 0; i < nRun; i++ {
 		g.caseRun()
+	}
+	for i := 0; i < nCancel; i++ {
+		g.caseCancel(false)
+	}
+	for i := 0; i < nRacy; i++ {
+		g.caseCancel(true)
+	}
+	for i := 0; i < nGCC; i++ {
+		g.caseGCCancel()
 	}
 	for i := 0; i < nDel; i++ {
 		g.caseDel()
